@@ -44,5 +44,23 @@ PROPS = {
         "explanation": "Lean theorems (core Lean, all byte strings): decode b = some p <-> p well-formed and encode p = b; re-encoding identical; length formula; zero-round boundary. Tie: model decode/encode = from_bytes/to_bytes on every generated string; oracle: independent acceptance predicate, re-encode identity, serde/bincode accepts and produces the same strings, prover outputs round-trip (except the known finding bits=1, agg=1).",
         "assumptions": ["Scalar::from_canonical_bytes accepts exactly the 32-byte little-endian encodings below l (checked by the scalar-boundary class)", "compressed points are opaque 32-byte strings at decode time"],
     },
+    "C06": {
+        "level": "proof",
+        "theorems": T("C06_guard_iff", "C06_range_guard", "C06_ok_verifies"),
+        "leancheck": ["Bpp.CtorsThm"],
+        "scenarios": [{"name": "C06"}],
+        "rule": "per (bits, aggregation, position): valid boundaries and each single violation of the witness relation; distinct = (bits, aggregation, position, class)",
+        "explanation": "Lean theorems: the prover's guards pass iff the documented witness relation holds (incl. the 64-bit shift special case), and then the proof has zero contribution (C01). Tie: real prove_with_rng Ok/Err = model guards on every case; oracle: Ok iff independently computed validity, Ok implies real verify Ok, no panic.",
+        "assumptions": COMMON_ASSUME,
+    },
+    "C17": {
+        "level": "proof",
+        "theorems": T("C17_params", "C17_statement", "C17_witness", "C17_degree", "C17_mask", "C17_commit"),
+        "leancheck": ["Bpp.CtorsThm"],
+        "scenarios": [{"name": "C17"}],
+        "rule": "exhaustive over the property's finite domain: bits 0..130 x capacity 0..130; capacity x commitments 0..17 x promise counts x seed; all u8 and a usize boundary set; all witness shapes up to 3 (4) openings x blinding counts 0..8; degree x length 0..8",
+        "explanation": "Lean theorems: each coded constructor guard is equivalent to the documented domain; tie + oracle: real Ok/Err = model = independently written predicate on the complete finite domain, stored fields equal inputs, no panic.",
+        "assumptions": ["usize::is_power_of_two modelled as 2^log2 x = x, x != 0 (std library, not verified)"],
+    },
 }
 NOT_CLAIMED = {}
